@@ -296,6 +296,14 @@ impl Gatekeeper {
     }
 }
 
+#[cfg(feature = "verif")]
+impl Gatekeeper {
+    /// Identifiers of the internal mutexes, so the verification scheduler can name them in its reports.
+    pub fn verif_mutex_ids(&self) -> Vec<(&'static str, usize)> {
+        vec![("gatekeeper.registered_users", self.registered_users.id())]
+    }
+}
+
 impl chain::Listen for Gatekeeper {
     /// Handles the monitoring process by the [Gatekeeper].
     ///
